@@ -824,9 +824,10 @@ func (p *Prog) FieldConcreteTypes(fld *types.Var) ([]*types.Named, bool) {
 			continue
 		}
 		sites := p.SitesDyn(ref.In.Obj)
-		if len(sites) == 0 || len(p.Refs(ref.In.Obj)) > 0 {
-			known = false
+		if len(p.Refs(ref.In.Obj)) > 0 {
+			known = false // the setter escapes as a value: its callers cannot be enumerated
 		}
+		// a setter nobody calls stores nothing
 		for _, s := range sites {
 			if idx >= len(s.Call.Args) {
 				known = false
